@@ -1,6 +1,6 @@
 """Property -> rules."""
 
-from . import rules_rta
+from . import rules_rta, rules_fp
 from .rta_model import ANALYSES
 
 FP = [p for p in ANALYSES if p.startswith('fixed_priority::')]
@@ -53,7 +53,44 @@ def rta_prop(paths, mode, prop, floor_instances, what):
     return run
 
 
+def c08(ctx, rep):
+    dbg = ctx.crate('dbg')
+    rel = ctx.crate('rel')
+    for a in COMMON_ASSUMPTIONS[:2]:
+        rep.assume(a)
+    rep.assume('Iterator::max_by keeps the accumulated (left) item iff the comparator returns Greater (std semantics)')
+    rep.assume('leastness itself additionally needs a monotone workload and a supply that grows by at most one per '
+               'time unit; those are numeric facts and are not decided here')
+    rep.rule('FP-INIT', 'first assumed value of the iteration is the constant 1')
+    rep.rule('FP-GUARD', 'the loop is left exactly when assumed > limit (canonical inequality)')
+    rep.rule('FP-OK', 'the only return inside the loop is Ok(service_time(workload(assumed)) - offset) under bound <= assumed')
+    rep.rule('FP-STEP', 'the only assignment to the iteration variable is := bound on the complementary branch')
+    rep.rule('LIM-NI', 'non-interference: divergence_limit does not reach any Ok payload')
+    rep.rule('FP-ERR', 'fall-through value is Err(DivergenceLimitExceeded{offset, limit}) built from the parameters')
+    rep.rule('FP-WRAP', 'search == search_with_offset(supply, 0, limit, &workload) in the debug and the release configuration')
+    rep.rule('ERR-ORIGIN', 'who-may-construct: SearchFailure values are built only inside the fixed-point kernel')
+    rep.rule('FP-MAX', 'max_response_time: comparator table, default Ok(0), no adaptor, unwraps dominated by !is_err')
+    rep.rule('FP-SIB', 'the debug-only linear scan agrees on range inclusivity, zero-demand result and Err payload')
+    rep.rule('ST-INIT/ST-RET/ST-STEP', 'default service_time: starts at demand, returns under supply >= demand, advances by demand - supply')
+    rules_fp.check_search_with_offset(rep, dbg)
+    rules_fp.check_search(rep, dbg, 'dbg')
+    rules_fp.check_search(rep, rel, 'rel')
+    rules_fp.check_err_origin(rep, dbg, 'dbg')
+    rules_fp.check_err_origin(rep, rel, 'rel')
+    rules_fp.check_max_response_time(rep, dbg)
+    rules_fp.check_brute_sibling(rep, dbg)
+    rules_fp.check_default_service_time(rep, dbg)
+    rep.floor('rule instances', len(rep.instances), 20)
+    return ('Static dataflow analysis of fixed_point.rs and the default SupplyBound::service_time: each loop is '
+            'summarised by one symbolic iteration (loop-carried variable = root, every return/assignment/break with its '
+            'path condition as canonical linear inequalities). Decides ten structural clauses necessary for C08 (start '
+            'value, inclusive guard, Ok payload and condition, strict progress, limit non-interference, Err payload and '
+            'origin, search wrapper in both build configurations, comparator of max_response_time, sibling agreement). '
+            'Does NOT decide leastness for a given numeric workload.')
+
+
 PROPS = {
+    'C08': c08,
     'C01': rta_prop(FP, 'safe', 'C01', 40,
                     'the four FP analyses implement BW, OFF_A, the run-to-completion bookkeeping, the result '
                     'extraction and the search space of the cited analysis, with no deviation in the unsafe direction'),
